@@ -13,10 +13,8 @@ are drawn from one counter in the order the Python draws them, and `build` ends 
 argument, so that all recursion is structural. Generic nodes are built the same way in both modes and
 then `finish`ed: returned (value mode) or used as `branch_pred` (branch mode).
 
-Deviation (reported by the model as `bad`, the harness skips such programs): the middle operand of a
-chained comparison is visited twice by the real builder *after having been mutated in place by the
-first visit*; the model only covers middle operands without IfExp/and/or/chained-compare/walrus, for
-which the in-place mutation is invisible (second visit = first visit). -/
+`build_operands` (evaluation order of the operands of a node, /repo commit f9e33c1) and the one-by-one
+building of chained comparisons (7c8aeda) are modelled as they are. -/
 namespace GuppyVerif.Builder
 open GuppyVerif.Surface
 
@@ -118,16 +116,65 @@ def lifts : Expr → Bool
   | .bi _ l r => lifts l || lifts r
   | .cmp2 .. | .and .. | .or .. | .ite .. | .walrus .. => true
 
-/-- `-(-5)`: the first visit folds the inner literal in place (`-(Constant(-5))`), a second visit of the
-    same node would fold again; only matters for the twice-visited middle operand of a chained comparison -/
-def negNeg : Expr → Bool
-  | .var _ | .num _ | .bool _ | .call0 _ => false
-  | .un o e => (match o, e with | .neg, .un .neg (.num _) => true | _, _ => false) || negNeg e
-  | .bi _ l r => negNeg l || negNeg r
-  | .cmp2 _ _ l m r => negNeg l || negNeg m || negNeg r
-  | .and l r | .or l r => negNeg l || negNeg r
-  | .ite t b o => negNeg t || negNeg b || negNeg o
-  | .walrus _ e => negNeg e
+/-- does the expression contain a call? (`has_call`) -/
+def anyCall : Expr → Bool
+  | .var _ | .num _ | .bool _ => false
+  | .call0 _ => true
+  | .un o e => (match o with | .call1 _ => true | _ => false) || anyCall e
+  | .bi o l r => (match o with | .call2 _ => true | _ => false) || anyCall l || anyCall r
+  | .cmp2 _ _ l m r => anyCall l || anyCall m || anyCall r
+  | .and l r | .or l r => anyCall l || anyCall r
+  | .ite t b o => anyCall t || anyCall b || anyCall o
+  | .walrus _ e => anyCall e
+
+/-- the variables assigned by assignment expressions inside the expression (`assigned_names`) -/
+def writes : Expr → List Var
+  | .var _ | .num _ | .bool _ | .call0 _ => []
+  | .un _ e => writes e
+  | .bi _ l r => writes l ++ writes r
+  | .cmp2 _ _ l m r => writes l ++ writes m ++ writes r
+  | .and l r | .or l r => writes l ++ writes r
+  | .ite t b o => writes t ++ writes b ++ writes o
+  | .walrus x e => x :: writes e
+
+/-- all variables occurring in an expression (`read_names` of a residual) -/
+def vars : Expr → List Var
+  | .var x => [x]
+  | .num _ | .bool _ | .call0 _ => []
+  | .un _ e => vars e
+  | .bi _ l r => vars l ++ vars r
+  | .cmp2 _ _ l m r => vars l ++ vars m ++ vars r
+  | .and l r | .or l r => vars l ++ vars r
+  | .ite t b o => vars t ++ vars b ++ vars o
+  | .walrus x e => x :: vars e
+
+def disjoint (a b : List Var) : Bool := a.all fun x => !b.contains x
+
+/-- `build_operands`: must the already built operand with residual `l'` be evaluated (stored in a temporary)
+    before the operand `r` is built?  Yes if both still make a call, or if `l'` reads a variable that `r`
+    assigns. -/
+def needBind (l' r : Expr) : Bool := (anyCall r && anyCall l') || !disjoint (vars l') (writes r)
+
+/-- `isinstance(e, ast.Constant | ast.Name)` -/
+def atomicSyn : Expr → Bool
+  | .var _ | .num _ | .bool _ => true
+  | _ => false
+
+/-- a built middle operand of a chained comparison that can be used twice as it is: a constant, or a variable
+    that the remaining operand does not assign -/
+def stable (e r : Expr) : Bool :=
+  match e with
+  | .num _ | .bool _ => true
+  | .var y => !(writes r).contains y
+  | _ => false
+
+/-- `ExprBuilder.bind`: `%tmp = e` in block `b` -/
+def bindTmp (e : Expr) (b : Nat) (σ : BState) : Expr × BState :=
+  let k := freshTmp σ
+  (.var (.tmp k.1), addStmt b (.assign (.tmp k.1) e) k.2)
+
+def preBind (c : Bool) (e : Expr) (b : Nat) (σ : BState) : Expr × BState :=
+  if c then bindTmp e b σ else (e, σ)
 
 /-- `ExprBuilder.visit` (mode `val`) and `BranchBuilder.visit` (mode `br t f`) on block `b`.
     Returns the residual expression (value mode), the block in which building continues, the state. -/
@@ -151,9 +198,12 @@ def bld : Expr → Mode → Nat → BState → R
         let r := bld e .val b σ
         finish m (.un o r.1) r.2.1 r.2.2
   | .bi o l r, m, b, σ =>
+    -- `_visit_children` / `build_operands`: left operand, (store it if the right one lifts something it must
+    -- not overtake), right operand
     let a := bld l .val b σ
-    let c := bld r .val a.2.1 a.2.2
-    finish m (.bi o a.1 c.1) c.2.1 c.2.2
+    let p := preBind (lifts r && needBind a.1 r) a.1 a.2.1 a.2.2
+    let c := bld r .val a.2.1 p.2
+    finish m (.bi o p.1 c.1) c.2.1 c.2.2
   | .walrus x e, m, b, σ =>
     let r := bld e .val b σ
     finish m (.var x) r.2.1 (addStmt r.2.1 (.assign x r.1) r.2.2)
@@ -170,16 +220,19 @@ def bld : Expr → Mode → Nat → BState → R
     let σ2 := (bld r (.br p.1 p.2.1) x.1 σ1).2.2
     scPost m p.1 p.2.1 b σ2
   | .cmp2 o1 o2 l mid r, m, b, σ =>
-    -- `visit_Compare`: `l o1 mid and mid o2 r`, the *same* `mid` node in both comparisons
-    let p := scPre m σ
-    let x := newBB p.2.2
+    -- `visit_Compare`: `l o1 mid` first (the middle operand is kept in a temporary unless it is stable),
+    -- then, in the next block, `mid o2 r`
+    let q := scPre m σ
+    let x := newBB q.2.2
     let a := bld l .val b x.2
-    let c := bld mid .val a.2.1 a.2.2
-    let σ1 := branchOn c.2.1 (.bi (.cmp o1) a.1 c.1) x.1 p.2.1 c.2.2
-    let c' := bld mid .val x.1 { σ1 with bad := σ1.bad || lifts mid || negNeg mid }
-    let d := bld r .val c'.2.1 c'.2.2
-    let σ2 := branchOn d.2.1 (.bi (.cmp o2) c'.1 d.1) p.1 p.2.1 d.2.2
-    scPost m p.1 p.2.1 b σ2
+    let p := preBind ((lifts mid || !atomicSyn mid) && needBind a.1 mid) a.1 a.2.1 a.2.2
+    let c := bld mid .val a.2.1 p.2
+    let pm := preBind (!stable c.1 r) c.1 c.2.1 c.2.2
+    let σ1 := branchOn c.2.1 (.bi (.cmp o1) p.1 pm.1) x.1 q.2.1 pm.2
+    let p2 := preBind (lifts r && needBind pm.1 r) pm.1 x.1 σ1
+    let d := bld r .val x.1 p2.2
+    let σ2 := branchOn d.2.1 (.bi (.cmp o2) p2.1 d.1) q.1 q.2.1 d.2.2
+    scPost m q.1 q.2.1 b σ2
   | .ite c x y, m, b, σ =>
     let tb := newBB σ
     let eb := newBB tb.2
@@ -230,8 +283,14 @@ def build : Stmt → Nat → Option Nat → Jumps → BState → BState × Optio
     (addStmt r.2.1 (.assign x r.1) r.2.2, some r.2.1)
   | .aug x op e, prev, cur, _, σ =>
     let c := ensure prev cur σ
-    let r := buildE e c.1 c.2
-    (addStmt r.2.1 (.aug x op r.1) r.2.2, some r.2.1)
+    if (writes e).contains x then
+      -- `x += (x := …)`: the old `x` is saved first and the statement becomes `x = old op rhs`
+      let old := bindTmp (.var x) c.1 c.2
+      let r := buildE e c.1 old.2
+      (addStmt r.2.1 (.assign x (.bi (.arith op) old.1 r.1)) r.2.2, some r.2.1)
+    else
+      let r := buildE e c.1 c.2
+      (addStmt r.2.1 (.aug x op r.1) r.2.2, some r.2.1)
   | .expr e, prev, cur, _, σ =>
     let c := ensure prev cur σ
     let r := buildE e c.1 c.2
